@@ -7,4 +7,5 @@ CONSTANTS
   MaxLen = 5
   CtxMax = 0
   WithPlans = FALSE
+  WithCrlf = FALSE
 INVARIANT EmittedWithMatches
